@@ -6,6 +6,8 @@ use pvm::{arena, exact, jo, util};
 #[global_allocator]
 static GLOBAL: std::alloc::System = std::alloc::System;
 
+mod c20_log;
+
 macro_rules! backend_mod {
     ($m:ident, $be:ty, $name:literal, $fft:literal) => {
         #[allow(dead_code, unused_imports, unused_variables, unused_mut)]
@@ -26,6 +28,19 @@ macro_rules! backend_mod {
             pub mod c12 {
                 use super::*;
                 include!("props/c12.rs");
+            }
+            // C15 / C20 read the clear GLWE secret and the thread-loop events through the `verif-hooks` feature
+            #[cfg(feature = "hooks")]
+            pub mod c15 {
+                use super::*;
+                include!("c1520_common.rs");
+                include!("props/c15.rs");
+            }
+            #[cfg(feature = "hooks")]
+            pub mod c20 {
+                use super::*;
+                include!("c1520_common.rs");
+                include!("props/c20.rs");
             }
             pub mod c17 {
                 use super::*;
@@ -191,6 +206,10 @@ fn main() {
         "c11" => on_backends!(&cfg, &mut rep, c11),
         "c12" => on_backends!(&cfg, &mut rep, c12),
         "c17" => on_backends!(&cfg, &mut rep, c17),
+        #[cfg(feature = "hooks")]
+        "c15" => on_backends!(&cfg, &mut rep, c15),
+        #[cfg(feature = "hooks")]
+        "c20" => on_backends!(&cfg, &mut rep, c20),
         "c08" => on_backends!(&cfg, &mut rep, c08),
         "c09" => on_backends!(&cfg, &mut rep, c09),
         other => {
